@@ -387,13 +387,12 @@ End Estimator.
 Definition normed_cycles_m (m slope : R) (f : data) : list R :=
   map (fun r => cycles r * npow (m / load r) slope) f.
 
-Definition wc_core (s ic sd : R) (sorted_normed zs : list R) : wcurve :=
-  let tn := std_to_scattering_range (1 / probfit_slope sorted_normed zs) in
-  WC (- s) (transition_cycles s ic sd) sd tn (npow tn (1 / - s)).
+Definition pearl_TN (sorted_normed zs : list R) : R := std_to_scattering_range (1 / probfit_slope sorted_normed zs).
+Definition wc_core (s ic sd tn : R) : wcurve := WC (- s) (transition_cycles s ic sd) sd tn (npow tn (1 / - s)).
 
 Fixpoint ascending (l : list R) : Prop :=
   match l with
-  | x :: (y :: _) as t => x < y /\ ascending t
+  | x :: (y :: _) as t => x <= y /\ ascending t
   | _ => True
   end.
 
@@ -401,7 +400,7 @@ Lemma ascending_sorted l : ascending l -> Sorted Rle l.
 Proof.
   induction l as [|x t IH]; [constructor|]. destruct t as [|y t'].
   - intros _. repeat constructor.
-  - intros [H1 H2]. constructor; [now apply IH|]. constructor. lra.
+  - intros [H1 H2]. constructor; [now apply IH|]. constructor. exact H1.
 Qed.
 
 Lemma elementary_staged ppf sortR
@@ -410,9 +409,10 @@ Lemma elementary_staged ppf sortR
   finite_fractures d = FF -> transition d = T ->
   ascending (normed_cycles_m (normed_load FF) (fit_slope FF) FF) ->
   elementary ppf sortR d =
-  wc_core (fit_slope FF) (fit_icpt FF) T (normed_cycles_m (normed_load FF) (fit_slope FF) FF) (map ppf (rossow (length FF))).
+  wc_core (fit_slope FF) (fit_icpt FF) T
+          (pearl_TN (normed_cycles_m (normed_load FF) (fit_slope FF) FF) (map ppf (rossow (length FF)))).
 Proof.
-  intros HF HT HA. unfold elementary, elementary_core, wc_core. rewrite HF, HT.
+  intros HF HT HA. unfold elementary, elementary_core, wc_core, pearl_TN. rewrite HF, HT.
   change (normed_cycles (fit_slope FF) FF) with (normed_cycles_m (normed_load FF) (fit_slope FF) FF).
   rewrite (sort_unique sortR sort_perm sort_sorted _ _ (ascending_sorted _ HA) (Permutation_refl _)). reflexivity.
 Qed.
